@@ -33,6 +33,9 @@ def main():
     cov = sysrun.model_part(ck, "C07", variants=["maskfields", "keepinf"], tier=ck.tier)
     limit = 48 if ck.tier == "quick" else None
     jobs = sysrun.product_jobs(FACTORS, {"n_particles": 8}, ck.seed + 7, limit=limit, flags=[(True, True, True, True), (False, True, True, False)])
+    # zero-likelihood region + blobs: the joint replacement of -inf prior draws
+    jobs += sysrun.product_jobs({"evaluation": ["blobs", "scalar", "vector"], "sample": ["tpcn", "rwm"]}, {"n_particles": 16, "support": 0.5, "ess_ratio": 3.0, "clustering": False},
+                                ck.seed + 70, flags=[(True, True, True, True)])
     if ck.tier == "thorough":
         jobs += sysrun.product_jobs(FACTORS, {"n_particles": 6, "n_dim": 3, "target": "bimodal"}, ck.seed + 77, limit=96, n_total=48)
         jobs += sysrun.product_jobs(FACTORS, {"n_particles": 8, "support": 0.5, "ess_ratio": 3.0}, ck.seed + 777, limit=96)
